@@ -254,6 +254,10 @@ async fn exchange<S: tokio::io::AsyncRead + tokio::io::AsyncWrite + Unpin>(s: &m
     if got != pattern(down_seed, down) {
         return Err("bytes written by the server arrived changed at the client".into());
     }
+    // acknowledge: the server waits for this after its flush, without writing anything more and
+    // without shutting down (request/response style)
+    s.write_all(b"K").await.map_err(|e| format!("client ack: {e}"))?;
+    s.flush().await.map_err(|e| format!("client ack flush: {e}"))?;
     Ok(())
 }
 
@@ -574,7 +578,15 @@ async fn server_exchange<S: tokio::io::AsyncRead + tokio::io::AsyncWrite + Unpin
         s.write_all(&data).await.map_err(|e| format!("server write: {e}"))?;
     }
     s.flush().await.map_err(|e| format!("server flush: {e}"))?;
-    Ok(())
+    // everything written and flushed has to arrive without further writes or a shutdown: wait for
+    // the client's acknowledgement (virtual time; it comes at once if the data got there)
+    let mut ack = [0u8; 1];
+    match tokio::time::timeout(Duration::from_secs(30), s.read_exact(&mut ack)).await {
+        Ok(Ok(_)) if ack[0] == b'K' => Ok(()),
+        Ok(Ok(_)) => Err("server: unexpected byte instead of the acknowledgement".into()),
+        Ok(Err(e)) => Err(format!("server: waiting for the client's acknowledgement: {e}")),
+        Err(_) => Err(format!("server: {down} bytes were written and flushed, yet the client had not received them 30 s later (flushed data stuck in the TLS stream)")),
+    }
 }
 
 fn lib() -> impl Strategy<Value = Lib> {
